@@ -737,6 +737,9 @@ func (e *FEnc) evalCall(env *Env, x *Ex) (*Val, error) {
 				return v.Tup[ak], nil
 			}
 		}
+		if v := e.noCallVal(x.Args[0].Name, ak, true); v != nil {
+			return v, nil
+		}
 		return nil, fmt.Errorf("unknown name arg(%s): no such call on the way here", x.Args[0].Name)
 	case "result": // result("callee", k): k-th result of the most recent call to callee on this path
 		if len(x.Args) != 2 || x.Args[0].Op != "str" || x.Args[1].Op != "int" || env.st == nil {
@@ -753,6 +756,9 @@ func (e *FEnc) evalCall(env *Env, x *Ex) (*Val, error) {
 					return v, nil
 				}
 			}
+		}
+		if v := e.noCallVal(x.Args[0].Name, k, false); v != nil {
+			return v, nil
 		}
 		return nil, fmt.Errorf("unknown name result(%s): no such call on the way here", x.Args[0].Name)
 	case "ncalls": // ncalls("pkg.Type.Method"): the number of calls to that callee executed on the way to this point
@@ -1002,6 +1008,16 @@ func (e *FEnc) pureSym(key string, args []*Val, resTy types.Type, i int) (string
 	}
 	rs := e.sortOf(resTy)
 	e.d.add("fn:"+sym, fmt.Sprintf("(declare-fun %s (%s) %s)", sym, strings.Join(ps, " "), rs))
+	if i == 0 && len(args) == 1 && args[0].Sort == "Str" && rs == "Str" {
+		// ground evaluation: the value of these library functions on every string literal of the query is stated as a
+		// fact (true of the real function), so that a clause can speak about a name "in any casing"
+		switch key {
+		case "strings.ToLower":
+			e.d.ground[sym] = strings.ToLower
+		case "strings.ToUpper":
+			e.d.ground[sym] = strings.ToUpper
+		}
+	}
 	return sym, rs
 }
 
@@ -1150,4 +1166,43 @@ func (e *FEnc) assumePureEnsures(env *Env, fn *ssa.Function, args []*Val, rs []*
 		}
 		e.fact(g)
 	}
+}
+
+// noCallVal: arg/result of a callee that the function does call, asked for at a point no such call has been executed
+// on the way to (e.g. a loop invariant at loop entry, written `called(c) ==> ... arg(c, k) ...`). The value is arbitrary
+// (one unconstrained value per callee and position); a callee the function never calls stays an evaluation error.
+func (e *FEnc) noCallVal(pat string, k int, isArg bool) *Val {
+	key := fmt.Sprintf("%s|%d|%v", pat, k, isArg)
+	if v, ok := e.noCall[key]; ok {
+		return v
+	}
+	for _, b := range e.fn.Blocks {
+		for _, in := range b.Instrs {
+			ci, ok := in.(ssa.CallInstruction)
+			if !ok || !matchPat(pat, calleeName(ci.Common())) {
+				continue
+			}
+			var ty types.Type
+			if isArg {
+				if k < len(ci.Common().Args) {
+					ty = ci.Common().Args[k].Type()
+				}
+			} else {
+				res := ci.Common().Signature().Results()
+				if k < res.Len() {
+					ty = res.At(k).Type()
+				}
+			}
+			if ty == nil {
+				return nil
+			}
+			v := e.newVal(ty, "nocall")
+			if e.noCall == nil {
+				e.noCall = map[string]*Val{}
+			}
+			e.noCall[key] = v
+			return v
+		}
+	}
+	return nil
 }
